@@ -111,6 +111,14 @@ def abs_items(node, al):
     return "[" + ";".join(items) + "]"
 
 
+def rep(node, attr):
+    """the repeat count as every consumer reads it: absent, "1", "0" or garbage count once"""
+    try:
+        return max(int(node.get(TB + attr) or 1), 1)
+    except ValueError:
+        return 1
+
+
 def cell_flags(c):
     """(soft empty, hard empty) by an independent rule: no children, no value attributes, not spanned; soft also: no style"""
     OF = OFFICE
@@ -136,17 +144,17 @@ def abs_table(tnode):
         for c in r:
             if c.tag in (TB + "table-cell", TB + "covered-table-cell"):
                 s, h = cell_flags(c)
-                cells.append("mkCell %d %s %s" % (int(c.get(TB + "number-columns-repeated") or 1), "true" if s else "false", "true" if h else "false"))
-        rows.append("mkRow %d [%s]" % (int(r.get(TB + "number-rows-repeated") or 1), ";".join(cells)))
+                cells.append("mkCell %d %s %s" % (rep(c, "number-columns-repeated"), "true" if s else "false", "true" if h else "false"))
+        rows.append("mkRow %d [%s]" % (rep(r, "number-rows-repeated"), ";".join(cells)))
     return "[" + ";".join(rows) + "]"
 
 
 def table_small(tnode, limit=400):
     n = 0
     for r in tnode.iter(TB + "table-row"):
-        n += int(r.get(TB + "number-rows-repeated") or 1)
+        n += rep(r, "number-rows-repeated")
         for c in r:
-            if int(c.get(TB + "number-columns-repeated") or 1) > 3000:
+            if rep(c, "number-columns-repeated") > 3000:
                 return False
         if n > limit:
             return False
@@ -275,6 +283,25 @@ def raw_table(rng, name, tight):
         name, w if tight else w + 4, "".join(rows))
 
 
+def foreign_table(name):
+    """valid-but-not-odfdo spellings other producers write (explicit repeat counts of 1, explicit default attributes, covered cells,
+    table:table-rows / table-header-rows / table-columns wrappers, trailing empty cells) and, in the last rows, the malformed
+    repeat counts "0" and garbage that a tolerant reader counts once"""
+    return ('<table:table table:name="%s"><table:table-columns><table:table-column table:number-columns-repeated="1"/>'
+            '<table:table-column table:number-columns-repeated="3" table:default-cell-style-name="Default"/></table:table-columns>'
+            '<table:table-header-rows><table:table-row table:number-rows-repeated="1"><table:table-cell office:value-type="string" '
+            'table:number-columns-repeated="1" table:number-columns-spanned="1" table:number-rows-spanned="1"><text:p>head</text:p></table:table-cell>'
+            '<table:table-cell table:number-columns-repeated="3"/></table:table-row></table:table-header-rows>'
+            '<table:table-rows><table:table-row><table:table-cell office:value-type="string" table:number-columns-spanned="2"><text:p>span</text:p></table:table-cell>'
+            '<table:covered-table-cell table:number-columns-repeated="1"/><table:table-cell table:number-columns-repeated="2"><text:p>r</text:p></table:table-cell></table:table-row>'
+            '<table:table-row table:number-rows-repeated="2"><table:table-cell office:value-type="float" office:value="1"><text:p>1</text:p></table:table-cell>'
+            '<table:table-cell/><table:table-cell/><table:table-cell/></table:table-row></table:table-rows>'
+            '<table:table-row table:number-rows-repeated="0"><table:table-cell table:number-columns-repeated="0"><text:p>zero</text:p></table:table-cell>'
+            '<table:table-cell table:number-columns-repeated="x"/><table:table-cell table:number-columns-repeated="2"/></table:table-row>'
+            '<table:table-row table:number-rows-repeated="1"><table:table-cell table:number-columns-repeated="1"><text:p>last</text:p></table:table-cell>'
+            '<table:table-cell table:number-columns-repeated="3"/></table:table-row></table:table>') % name
+
+
 def raw_document(odfdo, spec, rng):
     """content that is NOT in the shape odfdo itself writes: reading must not normalise it"""
     from odfdo import Document
@@ -304,6 +331,7 @@ def raw_document(odfdo, spec, rng):
         for k in range(rng.randint(2, 3)):
             parts.append(raw_table(rng, "Raw%d" % k, tight=(k == 0 or rng.random() < .5)))
     # constructs spelled as OTHER producers write them (valid, but not odfdo's own spelling): wrapping must not normalise them
+    parts.insert(0 if not text else rng.randint(0, len(parts)), foreign_table("Foreign"))
     if text:
         parts.append('<text:p text:style-name="Style_20_with space &amp; é">styled <draw:frame draw:name="f 1" svg:width="10mm" svg:height="0.3937in" '
                      'text:anchor-type="as-char" draw:z-index="0"><draw:text-box><text:p>in a box</text:p></draw:text-box></draw:frame></text:p>')
@@ -607,9 +635,9 @@ def locators(doc, tier, rng):
         ntab += 1
         out.append((("table", i), "table"))
         rows = [r for r in t.iter(TB + "table-row")]
-        rep_rows = [k for k, r in enumerate(rows) if any(int(c.get(TB + "number-columns-repeated") or 1) > 1 and (len(c) or set(c.attrib.keys()) - {TB + "number-columns-repeated"})
+        rep_rows = [k for k, r in enumerate(rows) if any(rep(c, "number-columns-repeated") > 1 and (len(c) or set(c.attrib.keys()) - {TB + "number-columns-repeated"})
                                                            for c in r)] or \
-                   [k for k, r in enumerate(rows) if any(int(c.get(TB + "number-columns-repeated") or 1) > 1 for c in r)]
+                   [k for k, r in enumerate(rows) if any(rep(c, "number-columns-repeated") > 1 for c in r)]
         for ri in rep_rows[:1]:          # a row with a repeated run, as a wrapper of the live node and as table.get_row(y, clone=False)
             out.append((("row", i, ri), "row"))
             out.append((("rowlive", i, ri), "row"))
@@ -664,7 +692,7 @@ def resolve(doc, loc):
         r = list(t.iter(TB + "table-row"))[loc[2]]
         y = 0
         for prev in list(t.iter(TB + "table-row"))[:loc[2]]:
-            y += int(prev.get(TB + "number-rows-repeated") or 1)
+            y += rep(prev, "number-rows-repeated")
         return Element.from_tag(t).get_row(y, clone=False)
     if kind in ("table", "row", "cell"):
         t = list(root.iter(TB + "table"))[loc[1]]
@@ -705,6 +733,46 @@ NO_CALL = {"get_between", "get_formatted_text"}      # need two elements / have 
 
 def _lab(v):
     return "ctx" if v == "<ctx>" else repr(v)
+
+
+def extent(obj):
+    """(width, height) of a table / (width, 1) of a row, counted on the lxml node"""
+    n = getattr(obj, "_Element__element", None)
+    if n is None:
+        return None
+    if n.tag == TB + "table":
+        rows = [r for r in n.iter(TB + "table-row")]
+        h = sum(rep(r, "number-rows-repeated") for r in rows)
+        w = max([sum(rep(c, "number-columns-repeated") for c in r) for r in rows] or [0])
+        return w, h
+    if n.tag == TB + "table-row":
+        return sum(rep(c, "number-columns-repeated") for c in n), 1
+    return None
+
+
+def a1(x, y):
+    s, x = "", x + 1
+    while x:
+        x, r = divmod(x - 1, 26)
+        s = chr(65 + r) + s
+    return "%s%d" % (s, y + 1)
+
+
+def edge_values(obj):
+    """coordinate arguments AT the edge, one and several PAST it, and negative beyond the start (C08: reading outside the
+    populated area returns an empty cell or row instead of failing or growing the table)"""
+    e = extent(obj)
+    if not e:
+        return {}
+    w, h = e
+    ys = [max(h - 1, 0), h, h + 3, -1, -h - 2]
+    xs = [max(w - 1, 0), w, w + 3, -1, -w - 2]
+    out = {"y": ys, "row": ys, "x": xs, "column": xs, "idx": xs if priv(obj).tag == TB + "table-row" else ys, "index": ys,
+           "position": ys if priv(obj).tag == TB + "table" else xs}
+    out["coord"] = [(w, h), (w + 2, h + 3), a1(w, h), a1(0, h), a1(w, 0), a1(w + 3, h + 3), (max(w - 1, 0), h), (-w - 2, 0), (0, -h - 2),
+                    "%s:%s" % (a1(max(w - 1, 0), max(h - 1, 0)), a1(w + 1, h + 1)), (w, h + 2) if priv(obj).tag == TB + "table-row" else (0, h, w + 1, h + 2)]
+    out["coordinates"] = out["coord"]; out["area"] = out["coord"]
+    return out
 
 
 def introspected_calls(obj):
@@ -748,10 +816,17 @@ def introspected_calls(obj):
             skipped.append(name + "(needs arguments)")
             continue
         variants = [dict(req)] + [dict(req, **{k: v}) for k, v in flags]
+        edges = edge_values(obj)
+        for pn, _v in req:          # required coordinate arguments: out-of-area values too
+            for ev in edges.get(pn, []):
+                variants.append(dict(req, **{pn: ev}))
+                for k, fv in flags:
+                    if k in ("clone", "create", "keep_repeated"):
+                        variants.append(dict(req, **{pn: ev, k: fv}))
         opt = [p.name for p in sig.parameters.values() if p.default is not inspect.Parameter.empty and p.name in OPT_ARGS
                and p.kind not in (p.VAR_POSITIONAL, p.VAR_KEYWORD)]
         for pn in opt:
-            for v in OPT_ARGS[pn]:
+            for v in OPT_ARGS[pn] + edges.get(pn, []):
                 variants.append(dict(req, **{pn: v}))
                 for k, fv in flags[:2]:
                     variants.append(dict(req, **{pn: v, k: fv}))
